@@ -282,3 +282,37 @@ fn c14_rotation_policy_limit_scaled_to_1() {
 fn c14_rotation_policy_2_peers_limit_scaled_to_1() {
     rotation_policy(2);
 }
+
+// @prop C14
+// @tier thorough
+// @fn Session::new_optimistic_peers, rand-model choose (any element)
+// @bound 3 peers, every combination of (am_choked, interested) flags, every random pick
+// @desc the peer drawn for the optimistic unchoke is one that is currently choked by us and has declared interest; nothing is drawn exactly when no such peer exists, and never more than one
+#[kani::proof]
+#[kani::unwind(5)]
+fn c14_optimistic_candidate_is_choked_and_interested() {
+    let np = 3;
+    let mut s = mk_session(1);
+    peers_for_rotation(&mut s, np);
+    let picked = s.new_optimistic_peers();
+    assert!(picked.len() <= 1, "at most one optimistic unchoke per rotation");
+    let mut candidates = 0;
+    let mut k = 0;
+    while k < np {
+        let p = &s.peers[&String::from(ADDRS[k])];
+        if p.am_choked && p.interested {
+            candidates += 1;
+        }
+        k += 1;
+    }
+    if picked.len() == 1 {
+        let p = s.peers.get(&picked[0]).expect("the pick is a connected peer");
+        assert!(p.am_choked && p.interested, "only a choked, interested peer is drawn");
+        kani::cover!(candidates == 3, "drawn among three candidates");
+    } else {
+        assert!(candidates == 0, "nothing drawn only when there is no candidate");
+        kani::cover!(true, "no candidate");
+    }
+    std::mem::forget(picked);
+    std::mem::forget(s);
+}
